@@ -270,5 +270,6 @@ def run_all(repo, outdir, only=None):
 if __name__ == '__main__':
     import sys
     here = os.path.dirname(os.path.dirname(os.path.abspath(__file__)))
-    r = run_all(os.environ.get('STARSIM_REPO', '/repo'), os.path.join(here, 'lean', 'StarsimModel', 'Generated'))
+    from harness import extract as _E   # (plug-ins register with the imported module, not with __main__)
+    r = _E.run_all(os.environ.get('STARSIM_REPO', '/repo'), os.path.join(here, 'lean', 'StarsimModel', 'Generated'))
     print(json.dumps(r, indent=1))
